@@ -173,43 +173,7 @@ func runC12(r *Run, p *Prog) {
 			}
 			r.Ob("X2", E, E+".Error() returns "+bname+"."+E, nt.Obj().Pos(), okE, "the typed error reports a different name than the one on the wire")
 			// (c) helper Reply<E>
-			h := p.Func(pkgVarlink, "Call.Reply"+E)
-			okH := false
-			detail := "helper Reply" + E + " not found"
-			if h != nil {
-				detail = "helper does not send " + wire + " with a *" + E + " holding its argument"
-				for _, cs := range callsIn(h, false) {
-					t := staticTarget(cs.Common)
-					if t == nil || !p.InRepo(t) {
-						continue
-					}
-					reaches := false
-					for g := range cg.Reach([]*ssa.Function{t}, false) {
-						if wfn[g] {
-							reaches = true
-						}
-					}
-					if !reaches {
-						continue
-					}
-					hasName, hasParam := false, false
-					for _, a := range cs.Common.Args {
-						if T.T(a) == wire {
-							hasName = true
-						}
-						if al := unwrapAlloc(a); al != nil && isNamed(al.Type(), pkgVarlink, E) {
-							vals := fieldStores(al)[st.Field(0).Name()]
-							if len(vals) == 1 && strip(T.T(vals[0])) == "param:"+h.Params[len(h.Params)-1].Name() {
-								hasParam = true
-							}
-						}
-					}
-					// the error name must reach the reply's Error member unchanged in the callee
-					okFlow := replyErrorFlow(T, t, wfn)
-					okH = hasName && hasParam && okFlow
-					detail = fmt.Sprintf("name constant passed=%v, *%s with the argument passed=%v, callee stores name/parameters into the reply unchanged=%v", hasName, E, hasParam, okFlow)
-				}
-			}
+			okH, detail := stdErrorHelperOK(p, T, cg, wfn, E, wire, st)
 			r.Ob("X2", E, "Reply"+E+" sends "+bname+"."+E+" with its argument", nt.Obj().Pos(), okH, detail)
 			// (d) DispatchError arm
 			okD := false
@@ -393,4 +357,46 @@ func replyErrorFlow(T *Terms, t *ssa.Function, wfn map[*ssa.Function]bool) bool 
 		}
 	}
 	return false
+}
+
+// stdErrorHelperOK: the helper Call.Reply<E> hands the reply path the constant wire name and a *<E> whose single member
+// is the helper's argument (so that encoding/json, not hand-written code, renders it).
+func stdErrorHelperOK(p *Prog, T *Terms, cg *CallGraph, wfn map[*ssa.Function]bool, E, wire string, st *types.Struct) (bool, string) {
+	h := p.Func(pkgVarlink, "Call.Reply"+E)
+	if h == nil {
+		return false, "helper Reply" + E + " not found"
+	}
+	okH := false
+	detail := "helper does not send " + wire + " with a *" + E + " holding its argument"
+	for _, cs := range callsIn(h, false) {
+		t := staticTarget(cs.Common)
+		if t == nil || !p.InRepo(t) {
+			continue
+		}
+		reaches := false
+		for g := range cg.Reach([]*ssa.Function{t}, false) {
+			if wfn[g] {
+				reaches = true
+			}
+		}
+		if !reaches {
+			continue
+		}
+		hasName, hasParam := false, false
+		for _, a := range cs.Common.Args {
+			if T.T(a) == wire {
+				hasName = true
+			}
+			if al := unwrapAlloc(a); al != nil && isNamed(al.Type(), pkgVarlink, E) && st != nil {
+				vals := fieldStores(al)[st.Field(0).Name()]
+				if len(vals) == 1 && strip(T.T(vals[0])) == "param:"+h.Params[len(h.Params)-1].Name() {
+					hasParam = true
+				}
+			}
+		}
+		okFlow := replyErrorFlow(T, t, wfn)
+		okH = hasName && hasParam && okFlow
+		detail = fmt.Sprintf("name constant passed=%v, *%s with the argument passed=%v, callee stores name/parameters into the reply unchanged=%v", hasName, E, hasParam, okFlow)
+	}
+	return okH, detail
 }
